@@ -1,11 +1,21 @@
 #!/bin/bash
-# tools/allseeds.sh: re-run every confirmed seeded change against the registered check of its property (applies and undoes each patch on /repo)
+# tools/allseeds.sh [jobs]: re-run every confirmed seeded change against the registered check of its property.
+# Each property's seeds run serially on a scratch copy of the repository (PYVC_REPO) with their own output directory (PYVC_OUT), the
+# properties in parallel; /repo and /verif/evidence are not touched.  (tools/seedtest.sh is the variant that applies a patch to /repo itself.)
+jobs=${1:-5}
 cd /verif
-for d in seeded/*/; do
-  id=$(basename $d); prop=${id%-*}
-  out=$(bash tools/seedtest.sh $prop /verif/$d 2>&1)
-  rc=$(echo "$out" | grep -o "check rc=[0-9]*" | head -1)
-  demo=$(echo "$out" | grep -o "demo with change: exit [0-9]* ; without: exit [0-9]*" | head -1)
-  echo "$id $rc | $demo | $(echo "$out" | grep -c VIOLATION) violation line(s)"
-done
-git -C /repo status --short | head -3
+run_prop() {
+  prop=$1
+  scr=/tmp/pyvc_seedrun_$prop; out=/tmp/pyvc_seedout_$prop
+  for d in seeded/$prop-*/; do
+    id=$(basename $d)
+    rm -rf $scr $out; mkdir -p $scr $out
+    cp -r /repo/synkit $scr/synkit; cp -r /repo/Data $scr/Data 2>/dev/null
+    (cd $scr && git init -q . >/dev/null 2>&1; git apply /verif/$d/patch.diff) || { echo "$id PATCH-FAILED"; continue; }
+    PYVC_REPO=$scr PYVC_OUT=$out ./check $prop quick > $out/out.txt 2> $out/err.txt; rc=$?
+    echo "$id rc=$rc violations=$(grep -c VIOLATION $out/out.txt) $(grep '^pyvc' $out/err.txt | cut -c1-140)"
+  done
+  rm -rf $scr $out
+}
+export -f run_prop
+ls seeded | sed 's/-[0-9]*$//' | sort -u | xargs -P $jobs -I{} bash -c 'run_prop {}'
